@@ -119,7 +119,7 @@ Obs == [acc |-> IF acc \in {"dcancel"} THEN "run" ELSE acc,
 
 (* --------------------------------- stimuli ---------------------------------- *)
 Bound == nst < MaxStims
-Mark(e) == nst' = nst + 1 /\ hist' = Append(hist, [s |-> e, pre |-> Obs])     \* pre: the observation demanded before the stimulus
+Mark(e) == nst' = nst + 1 /\ hist' = IF Gen THEN Append(hist, [s |-> e, pre |-> Obs]) ELSE hist     \* pre: the observation demanded before the stimulus
 
 Offered == Cardinality({i \in 1..Len(lq) : lq[i] = "conn"}) + nconn
 
@@ -172,6 +172,13 @@ ResultMeaning == (res = "nil" => ctx = "canceled")
 CancelledReturns == (Quiescent /\ ctx = "canceled" /\ \A c \in Conns : ~conn[c].busy) => acc = "ret"
 \* a live Serve with a live listener keeps accepting
 KeepsAccepting == (Quiescent /\ ctx = "live" /\ lisClosed = 0 /\ res = "none") => acc \in {"accept", "sleep"}
+
+\* the same as temporal properties under weak fairness of the goroutines' steps (no fairness for the environment):
+\* a cancelled Serve eventually returns unless user code keeps a handler busy; an accepted connection whose peer went
+\* away is eventually torn down unless its handler stays busy
+LiveSpec == Init /\ [][Next]_vars /\ WF_vars(Internal)
+CancelLeadsToReturn == [](ctx = "canceled" => <>(acc = "ret" \/ \E c \in Conns : conn[c].busy))
+EndLeadsToDone == \A c \in Conns : [](conn[c].ended => <>(conn[c].st = "done" \/ conn[c].busy))
 
 Inv == TypeOK /\ ReturnedClean /\ CloseOnce /\ LisCloseBounded /\ ResultMeaning /\ CancelledReturns /\ KeepsAccepting
 
